@@ -31,3 +31,10 @@ def run(ctx):
     # ... and ties are broken by the priority / creation order the events were given (shared rules with C01)
     c01.r13_key_immutable(ctx)
     c01.r14_counter(ctx)
+    # admission and horizon tests compare clock values, quantities on Duration clocks (shared rule with C01 / C16)
+    from . import c16
+    ctx.uses('units')
+    c16.r166(ctx, None)
+    # the horizon within which events run is what the replication reports as its end time (shared rule with C03 / C06 / C11)
+    ctx.uses('experiment')
+    S.replication_frame(ctx, 'R2.9')
